@@ -53,6 +53,7 @@ type simRun struct {
 	lAction []int
 	lHit    []int
 	lDeath  []int
+	lHP     []int
 	budget  int
 	rev     map[key.TargetID]bool
 	trace   []term.T
@@ -176,6 +177,12 @@ func (r *simRun) subscribe(eng engine.Engine) {
 		r.rec(term.C("VDeathSeen", term.I(int64(e.Target)), term.I(int64(e.Killer))))
 		if i, ok := r.popSlot(&r.lDeath); ok {
 			r.execOps(r.script(i), e.Target, e.Killer)
+		}
+	})
+	ev.HPChange.Subscribe(func(e event.HPChange) {
+		r.rec(term.C("VHPSeen", term.I(int64(e.Target)), term.B(e.IsHPChangeByDamage)))
+		if i, ok := r.popSlot(&r.lHP); ok {
+			r.execOps(r.script(i), e.Target, e.Target)
 		}
 	})
 	ev.LimboWaitHeal.Subscribe(func(e event.LimboWaitHeal) bool { return r.rev[e.Target] }, 0)
@@ -469,10 +476,10 @@ func intList(t term.T) []int {
 
 func runSim(in term.T) term.T {
 	simOnce.Do(registerSimContent)
-	_, a := term.Ctor(in) // mkCfg units scripts next ults lb la lh ld limit budget
+	_, a := term.Ctor(in) // mkCfg units scripts next ults lb la lh ld lhp limit budget
 	r := &simRun{acts: map[key.TargetID][]int{}, next: map[key.TargetID][]term.T{}, rev: map[key.TargetID]bool{}}
 	curSim = r
-	cfg := &model.SimConfig{Settings: &model.SimulatorSettings{CycleLimit: uint32(term.Int(a[8]))}}
+	cfg := &model.SimConfig{Settings: &model.SimulatorSettings{CycleLimit: uint32(term.Int(a[9]))}}
 	allWeak := []model.DamageType{}
 	for i := 1; i < len(model.DamageType_name); i++ {
 		allWeak = append(allWeak, model.DamageType(i))
@@ -514,8 +521,8 @@ func runSim(in term.T) term.T {
 	for _, u := range term.List(a[3]) {
 		r.ults = append(r.ults, term.List(u))
 	}
-	r.lBattle, r.lAction, r.lHit, r.lDeath = intList(a[4]), intList(a[5]), intList(a[6]), intList(a[7])
-	r.budget = int(term.Int(a[9]))
+	r.lBattle, r.lAction, r.lHit, r.lDeath, r.lHP = intList(a[4]), intList(a[5]), intList(a[6]), intList(a[7]), intList(a[8])
+	r.budget = int(term.Int(a[10]))
 
 	r.sim = simulation.NewSimulation(cfg, &vEval{r: r}, 7)
 	logging.InitLoggers(&simLogger{r: r})
